@@ -72,8 +72,10 @@ def gen_cases(ctx, n_random, n_tok):
             name = rng.choice(["__module__", "a.mmm#__fn%d" % k, "dir/x y.mmm#f%d" % k, "é%d" % k, "A::m%d" % k, "f %d" % k, "e%d" % k])
             if rng.random() < 0.15:
                 name = (rand_string(rng, 6).strip() or "z").replace("\n", "") + str(k)
-            if name in names:
-                continue
+            if names and rng.random() < 0.08:
+                name = rng.choice(sorted(names))
+            if name in names and rng.random() < 0.6:
+                continue        # (otherwise: a REPEATED function name in one file; the loader keeps the later record)
             names.add(name)
             body = []
             for _ in range(rng.randint(0, 5)):
@@ -143,7 +145,9 @@ def model_fields(res):
                         else:
                             ins.append((int(i), ()))
                     fns.append((uncps(name), tuple(ins)))
-            out[k] = ("map", sorted(fns))
+            # the loader stores the functions in a HashMap keyed by name (file.rs get_functions: `insert`): of several
+            # records with one name the LAST one is the function; the model returns the records in file order
+            out[k] = ("map", sorted(dict(fns).items()))
         else:
             out[k] = v
     return out
